@@ -161,6 +161,16 @@ mod xen {
             v.push(Op::ArrStore { ty, off, n, i: n - 1 });
             v.push(Op::ArrLoad { ty, off, n, i: n - 1 });
         }
+        // short overlapping slice-to-slice copies around every page boundary, the destination
+        // below and above the source, one or both ranges crossing the boundary
+        for b in [4096usize, 8192] {
+            if b + 64 > l {
+                continue;
+            }
+            for (so, d_o) in [(24isize, 48isize), (48, 24), (8, 40), (40, 8), (16, 20), (20, 16), (30, 33), (33, 30)] {
+                v.push(Op::SliceCopyToVs { off: (b as isize - so) as usize, len: 32, dst: Dst::Same((b as isize - d_o) as usize, 32) });
+            }
+        }
         // long overlapping slice-to-slice copies, destination behind and ahead of the source
         v.push(Op::SliceCopyToVs { off: 100, len: 4000, dst: Dst::Same(164, 4000) });
         v.push(Op::SliceCopyToVs { off: 164, len: 4000, dst: Dst::Same(100, 4000) });
